@@ -522,6 +522,57 @@ def check_qpe(case, acc):
     acc.out(("qpe", s.bitstring))
 
 
+def check_unitary_object_history(case, acc):
+    """E2-style: ONE unitary object (TrotterSuzukiUnitary / CircuitUnitary) serves several solvers in a row - standard QPE with a
+    3-qubit register, then a 2-qubit register, then a 1-qubit register, then 3 again; the eigenphase 1/2 is representable in all of
+    them, so every solver must return it with certainty (nothing the object remembered from an earlier solver may leak)."""
+    from tangelo.algorithms.projective.qpe import QPESolver
+    sg = usig(case)
+
+    def bad(kind, detail):
+        acc.violation(f"QPESolver(shared unitary object)/{kind}/{sg}", case, detail, group=f"QPESolver(shared unitary object)/{kind}")
+
+    shared = None
+    for step, m in enumerate(case["registers"]):
+        c = dict(case, m=m, k=2 ** (m - 1))
+        P = build_problem(c)
+        opts = solver_options(c, P, None)
+        if shared is None:
+            shared = opts["unitary"]
+        opts["unitary"] = shared
+        acc.ev()
+        acc.transitions += 1
+        try:
+            s = QPESolver(opts)
+            s.build()
+            s.simulate()
+        except Exception as e:
+            bad("exception", {"step": step, "register": m, "err": repr(e)[:300]})
+            return
+        fr = {b: float(v) for b, v in s.qpe_freqs.items()}
+        want = "1" + "0" * (m - 1)
+        if abs(fr.get(want, 0.0) - 1) > TOL or s.bitstring != want:
+            bad("answer-depends-on-earlier-solvers", {"step": step, "register": m, "freqs": fr, "expected": want})
+            return
+    acc.states += 1
+    acc.nt(("unitary-history", case["u"], case["state"], tuple(case["registers"])))
+    acc.out(("unitary-history", sg))
+
+
+def unitary_history_cases(seed):
+    out = []
+    for regs in ([3, 2, 1, 3], [1, 3, 2], [2, 3]):
+        for fam, st in (("Z", "1"), ("XXZZ", "phi+")):
+            for (o, meth) in ((1, "time"), (2, "repeat")):
+                out.append({"kind": "uhist", "fam": fam, "state": st, "wind": 0, "ref_form": "circuit", "seed": seed, "registers": regs,
+                            "u": {"type": "trotter", "order": o, "steps": 1, "method": meth, "tconv": "neg2pi", "form": "object"}})
+        for shape, st in (("P1", "1"), ("TOF", "10")):
+            for ctl in ("all", "variational"):
+                out.append({"kind": "uhist", "state": st, "wind": 0, "ref_form": "circuit", "seed": seed, "registers": regs,
+                            "u": {"type": "circuit", "shape": shape, "control": ctl, "form": "object"}})
+    return out
+
+
 def check_iqpe(case, acc):
     from tangelo.algorithms.projective.iqpe import IterativeQPESolver
     import tangelo.linq.target.backend as BK
@@ -777,6 +828,9 @@ def run_shard(sh):
             check_qpe(c, acc)
         if part == 0:
             acc.sample(cases[len(cases) // 3], cap=1)
+        for i, c in enumerate(unitary_history_cases(seed)):
+            if i % of == part:
+                check_unitary_object_history(c, acc)
     else:
         cases = pe_cases(tier, seed, {"iter1": "iqpe1", "iter2": "iqpe2"}[kind])
         for c in deal(cases, part, of):
@@ -797,6 +851,8 @@ def replay_case(case):
         check_qpe(case, acc)
     elif k == "iqpe":
         check_iqpe(case, acc)
+    elif k == "uhist":
+        check_unitary_object_history(case, acc)
     return acc
 
 
